@@ -143,8 +143,52 @@ def hdoc_targets():
             """Plain call
             #calls
             """
+    import ak.color as C
+
+    @HD.h_doc
+    class Service:
+        """Sample service with its own notes about bound methods
+
+        Body of the class doc.
+        """
+
+        def fetch(self, item_id):
+            """Fetch an item
+
+            Detailed description of fetch.
+            #items
+            """
+
+        def store(self, item):
+            """Store an item
+            #items
+            """
+
+        def drop(self, item):
+            """Drop an item
+            #items #danger
+            """
+
+        def listing(self):
+            """List items
+            #items
+            """
+
+        def _get_hdoc_method_notes(self, bound_method, _c):
+            n = bound_method.__name__
+            if n == "fetch":       # short note coloured, the line repeats its text
+                return HD.BoundMethodNotes(False, C.CHText(_c.warn("<n/a>")), "<n/a>")
+            if n == "drop":        # both coloured, different texts
+                return HD.BoundMethodNotes(False, C.CHText(_c.warn("no")), C.CHText("details ", _c.warn("here")))
+            if n == "listing":     # plain strings with equal texts
+                return HD.BoundMethodNotes(True, "note", "note")
+            return HD.BoundMethodNotes(True, "", "")
+    caller = Caller(H.HttpConn("http://h.invalid"))
+    svc = Service()
     out = {"Sample": Sample, "sample_obj": Sample(), "sample_method": Sample().method_one,
-           "caller_obj": Caller(H.HttpConn("http://h.invalid")), "Caller": Caller}
+           "caller_obj": caller, "Caller": Caller, "caller_needs_basic": caller.needs_basic, "caller_plain": caller.plain,
+           "Service": Service, "service_obj": svc, "service_fetch": svc.fetch, "service_drop": svc.drop,
+           "service_listing": svc.listing, "service_store": svc.store}
     hdoc_targets._c = (HD, out)
     return out
 
